@@ -41,6 +41,7 @@ type zzSeq struct {
 	hadOverflow bool
 	maximum     uint64
 	lastW       uint32
+	concreteClock bool
 	narrow      bool // clock advances are bounded by 2^40 (stated in the harness that sets it)
 	nOverflow, wOverflow     uint64 // Overflow events and their weights
 	nExpired, wExpired       uint64 // Expiration events (any path) and their weights
@@ -330,6 +331,66 @@ func (s *zzSeq) iterate(tag string) {
 		}
 	}
 	vAssert(s.env.c.EstimatedSize() >= n, tag+".iter.estimated_size")
+	// Keys / Values
+	var seenK [zzNK + 1]int
+	for k := range s.env.c.Keys() {
+		if k >= 1 && k <= zzNK {
+			seenK[k]++
+		}
+	}
+	nv := 0
+	for v := range s.env.c.Values() {
+		nv++
+		found := false
+		for k := 1; k <= zzNK; k++ {
+			if s.present(k) && s.m[k].val == v {
+				found = true
+			}
+		}
+		vAssert(found, tag+".iter.values_yields_only_present_values")
+	}
+	np := 0
+	for k := 1; k <= zzNK; k++ {
+		if s.present(k) {
+			np++
+			vAssert(seenK[k] == 1, tag+".iter.keys_present_once")
+		} else {
+			vAssert(seenK[k] == 0, tag+".iter.keys_absent_never")
+		}
+	}
+	vAssert(nv == np, tag+".iter.values_count")
+	// Coldest / Hottest run maintenance first: with a size bound and a symbolic clock that is a sweep
+	// (C13's subject), so the orderings are checked when the clock is concrete or the cache is unbounded
+	// (the orderings belong to C01/C03/C05; the event and statistics checks C06/C07/C20 leave them out)
+	orderings := !(len(tag) >= 3 && (tag[:3] == "c06" || tag[:3] == "c07" || tag[:3] == "c20"))
+	if orderings && (s.concreteClock || s.env.cfg.bound == 0 || !s.withExp()) {
+		for _, hot := range []bool{false, true} {
+			var seenO [zzNK + 1]int
+			if hot {
+				for e := range s.env.c.Hottest() {
+					if e.Key >= 1 && e.Key <= zzNK {
+						seenO[e.Key]++
+						vAssert(e.Value == s.m[e.Key].val, tag+".iter.ordering_value")
+					}
+				}
+			} else {
+				for e := range s.env.c.Coldest() {
+					if e.Key >= 1 && e.Key <= zzNK {
+						seenO[e.Key]++
+						vAssert(e.Value == s.m[e.Key].val, tag+".iter.ordering_value")
+					}
+				}
+			}
+			s.syncEvents(tag + ".iter.ordering")
+			for k := 1; k <= zzNK; k++ {
+				if s.present(k) {
+					vAssert(seenO[k] == 1, tag+".iter.ordering_yields_present_once")
+				} else {
+					vAssert(seenO[k] == 0, tag+".iter.ordering_never_yields_absent_or_expired")
+				}
+			}
+		}
+	}
 }
 
 var zzErrLoad = errors.New("zz: load failed")
@@ -653,7 +714,7 @@ func zzNewSeq(cfg zzCfg, tag string) *zzSeq { return zzNewSeqD(cfg, tag, false) 
 // zzNewSeqD: with concrete=true the calculator durations are fixed constants (2 s create, 3 s update,
 // 1.5 s read; refresh 1 s) so that the timer-wheel arithmetic stays concrete.
 func zzNewSeqD(cfg zzCfg, tag string, concrete bool) *zzSeq {
-	s := &zzSeq{tag: tag}
+	s := &zzSeq{tag: tag, concreteClock: concrete}
 	if concrete {
 		s.dC, s.dU, s.dR = 2_000_000_000, 3_000_000_000, 1_500_000_000
 		s.rC, s.rU = 1_000_000_000, 1_000_000_000
